@@ -932,4 +932,417 @@ theorem lookupVT_expr {C : Ctx} {r : Req} {v : Str} (post : List Str)
     exprPart, hne, hex]
   cases lookupExpr C.ord C.db r.name r.flavor v <;> rfl
 
+
+/-! ## views: lookups for a flavor depend on the stacks only through that flavor's records -/
+
+/-- two stacks hold the same records for flavor `f` -/
+def AgreeAt (f : Str) (st st' : Stack) : Prop :=
+  st.decls.filter (fun d => d.flavor == f) = st'.decls.filter (fun d => d.flavor == f) ∧
+  st.tags.filter (fun t => t.flavor == f) = st'.tags.filter (fun t => t.flavor == f)
+
+theorem agreeAt_refl (f : Str) (st : Stack) : AgreeAt f st st := ⟨rfl, rfl⟩
+
+theorem agreeAt_restrict (f : Str) (st : Stack) : AgreeAt f (restrictStack f st) st := by
+  constructor <;> simp [restrictStack, List.filter_filter]
+
+theorem any_filter_irrelevant {α : Type} (l : List α) (q p : α → Bool) (h : ∀ x, p x = true → q x = true) :
+    l.any p = (l.filter q).any p := by
+  induction l with
+  | nil => rfl
+  | cons x xs ih =>
+    by_cases hq : q x = true
+    · simp [hq, ih]
+    · have : p x = false := by
+        apply Bool.eq_false_iff.mpr; intro hp; exact hq (h x hp)
+      simp [hq, this, ih]
+
+theorem declared_congr {f : Str} {st st' : Stack} (h : AgreeAt f st st') (n v : Str) :
+    declared st n v f = declared st' n v f := by
+  unfold declared
+  rw [any_filter_irrelevant st.decls (fun d => d.flavor == f), any_filter_irrelevant st'.decls (fun d => d.flavor == f), h.1]
+  · intro d hd; simp at hd; simp [hd.2]
+  · intro d hd; simp at hd; simp [hd.2]
+
+theorem find?_filter_irrelevant {α : Type} (l : List α) (q p : α → Bool) (h : ∀ x, p x = true → q x = true) :
+    l.find? p = (l.filter q).find? p := by
+  induction l with
+  | nil => rfl
+  | cons x xs ih =>
+    by_cases hq : q x = true
+    · by_cases hp : p x = true
+      · simp [hq, hp]
+      · simp [hq, hp, ih]
+    · have : p x = false := by
+        apply Bool.eq_false_iff.mpr; intro hp; exact hq (h x hp)
+      simp [hq, this, ih]
+
+theorem tagVersion_congr {f : Str} {st st' : Stack} (h : AgreeAt f st st') (t n : Str) :
+    tagVersion st t n f = tagVersion st' t n f := by
+  unfold tagVersion
+  rw [find?_filter_irrelevant st.tags (fun r => r.flavor == f), find?_filter_irrelevant st'.tags (fun r => r.flavor == f), h.2]
+  · intro d hd; simp at hd; simp [hd.2]
+  · intro d hd; simp at hd; simp [hd.2]
+
+theorem tagHere_congr {f : Str} {st st' : Stack} (h : AgreeAt f st st') (t n : Str) :
+    tagHere st t n f = tagHere st' t n f := by
+  unfold tagHere
+  rw [tagVersion_congr h]
+  cases tagVersion st' t n f with
+  | none => rfl
+  | some v => simp only [declared_congr h]
+
+theorem versionsOf_congr {f : Str} {st st' : Stack} (h : AgreeAt f st st') (n : Str) :
+    versionsOf st n f = versionsOf st' n f := by
+  unfold versionsOf
+  have : ∀ l : List Decl, l.filter (fun d => d.name == n && d.flavor == f) =
+      (l.filter (fun d => d.flavor == f)).filter (fun d => d.name == n && d.flavor == f) := by
+    intro l
+    rw [List.filter_filter]
+    congr 1
+    funext d
+    by_cases hf : (d.flavor == f) = true <;> simp [hf]
+  rw [this st.decls, this st'.decls, h.1]
+
+/-- two views agree, stack by stack, on the records of flavor `f` -/
+inductive ViewsAgree (f : Str) : Db → Db → Prop where
+  | nil : ViewsAgree f [] []
+  | cons {st st' : Stack} {db db' : Db} : AgreeAt f st st' → ViewsAgree f db db' →
+      ViewsAgree f (st :: db) (st' :: db')
+
+theorem viewsAgree_refl (f : Str) (db : Db) : ViewsAgree f db db := by
+  induction db with
+  | nil => exact .nil
+  | cons st rest ih => exact .cons (agreeAt_refl f st) ih
+
+theorem firstStack_congr {α : Type} {f : Str} {g g' : Stack → Option α} {db db' : Db}
+    (h : ViewsAgree f db db') (hg : ∀ st st', AgreeAt f st st' → g st = g' st') (i : Nat) :
+    firstStack g i db = firstStack g' i db' := by
+  induction h generalizing i with
+  | nil => rfl
+  | cons hst _ ih => simp only [firstStack, hg _ _ hst, ih]
+
+theorem lookupVersion_congr {f : Str} {db db' : Db} (h : ViewsAgree f db db') (n v : Str) :
+    lookupVersion db n v f = lookupVersion db' n v f := by
+  unfold lookupVersion
+  rw [firstStack_congr (g' := fun st => if declared st n v f then some () else none) h]
+  intro st st' hst
+  simp only [declared_congr hst]
+
+theorem lookupTag_congr {f : Str} {db db' : Db} (h : ViewsAgree f db db') (t n : Str) :
+    lookupTag db t n f = lookupTag db' t n f := by
+  unfold lookupTag
+  rw [firstStack_congr (g' := fun st => tagHere st t n f) h]
+  intro st st' hst
+  exact tagHere_congr hst t n
+
+theorem latestGo_congr {f : Str} {db db' : Db} (h : ViewsAgree f db db')
+    (cmp : Str → Str → Int) (n : Str) (i : Nat) (out : Option Prod) :
+    latestGo cmp n f i out db = latestGo cmp n f i out db' := by
+  induction h generalizing i out with
+  | nil => rfl
+  | cons hst _ ih =>
+    simp only [latestGo, versionsOf_congr hst]
+    split
+    · exact ih _ _
+    · split
+      · exact ih _ _
+      · split <;> exact ih _ _
+
+theorem exprCandsGo_congr {f : Str} {db db' : Db} (h : ViewsAgree f db db')
+    (vm : Str → Str → Bool) (n x : Str) (i : Nat) (acc : List (Nat × Str)) :
+    exprCandsGo vm n f x i acc db = exprCandsGo vm n f x i acc db' := by
+  induction h generalizing i acc with
+  | nil => rfl
+  | cons hst _ ih =>
+    simp only [exprCandsGo, versionsOf_congr hst]
+    exact ih _ _
+
+theorem lookupExpr_congr {f : Str} {db db' : Db} (h : ViewsAgree f db db') (o : Ord) (n x : Str) :
+    lookupExpr o db n f x = lookupExpr o db' n f x := by
+  unfold lookupExpr exprCands
+  rw [exprCandsGo_congr h]
+
+theorem lookupLatest_congr {f : Str} {db db' : Db} (h : ViewsAgree f db db')
+    (cmp : Str → Str → Int) (n : Str) : lookupLatest cmp db n f = lookupLatest cmp db' n f :=
+  latestGo_congr h cmp n 0 none
+
+/-- two contexts whose views agree, stack by stack, on the records of the request's flavor give the
+same answer at every entry -/
+theorem lookupEntry_view_congr {C C' : Ctx} {r : Req} (ho : C.ord = C'.ord) (hg : C.globalTags = C'.globalTags)
+    (hdb : ViewsAgree r.flavor C.db C'.db)
+    (hdl : ViewsAgree r.flavor C.dbLatest C'.dbLatest) (e : Str) (post : List Str) :
+    lookupEntry C r e post = lookupEntry C' r e post := by
+  have hrec : ∀ e, C.recognized e = C'.recognized e := by intro e; simp [Ctx.recognized, hg]
+  have hvt : ∀ v, lookupVT C r e post v = lookupVT C' r e post v := by
+    intro v
+    unfold lookupVT exprPart
+    simp only [ho, lookupExpr_congr hdb, lookupVersion_congr hdb]
+  have htag : lookupTagEntry C r e = lookupTagEntry C' r e := by
+    unfold lookupTagEntry
+    simp only [ho, lookupLatest_congr hdl, lookupTag_congr hdb]
+  simp only [lookupEntry, hrec, hvt, htag]
+
+theorem walk_view_congr {C C' : Ctx} {r : Req} (ho : C.ord = C'.ord) (hg : C.globalTags = C'.globalTags)
+    (hdb : ViewsAgree r.flavor C.db C'.db)
+    (hdl : ViewsAgree r.flavor C.dbLatest C'.dbLatest) (vro : List Str) :
+    walk C r vro = walk C' r vro := by
+  induction vro with
+  | nil => rfl
+  | cons e post ih => simp only [walk, lookupEntry_view_congr ho hg hdb hdl, ih]
+
+theorem find_view_congr {C C' : Ctx} {r : Req} (ho : C.ord = C'.ord) (hg : C.globalTags = C'.globalTags)
+    (hdb : ViewsAgree r.flavor C.db C'.db)
+    (hdl : ViewsAgree r.flavor C.dbLatest C'.dbLatest) (vro : List Str) :
+    find C r vro = find C' r vro := by
+  simp only [find, walk_view_congr ho hg hdb hdl]
+
+/-- the cache view of a database agrees with the database on the native flavor, whatever was accepted -/
+theorem cacheView_agree_native (native : Str) (accepted : List Bool) (db : Db) :
+    ViewsAgree native (cacheView native accepted db) db := by
+  induction db generalizing accepted with
+  | nil => cases accepted <;> exact .nil
+  | cons st rest ih =>
+    cases accepted with
+    | nil =>
+      simp only [cacheView]
+      exact viewsAgree_refl _ _
+    | cons a as =>
+      simp only [cacheView]
+      refine .cons ?_ (ih as)
+      cases a
+      · exact agreeAt_refl _ _
+      · exact agreeAt_restrict _ _
+
+/-- when no stack's cache was accepted the cache view is the database -/
+theorem cacheView_all_rebuilt (native : Str) (accepted : List Bool) (db : Db)
+    (h : ∀ b ∈ accepted, b = false) : cacheView native accepted db = db := by
+  induction db generalizing accepted with
+  | nil => cases accepted <;> simp [cacheView]
+  | cons st rest ih =>
+    cases accepted with
+    | nil => simp [cacheView]
+    | cons a as =>
+      have ha : a = false := h a (by simp)
+      subst ha
+      simp only [cacheView]
+      rw [ih as (fun b hb => h b (List.mem_cons_of_mem _ hb))]
+      rfl
+
+/-! ## the flavor of what a walk returns -/
+
+theorem latestGo_flavor {cmp : Str → Str → Int} {n f : Str} {i : Nat} {out : Option Prod} {db : Db} {p : Prod}
+    (hout : ∀ q, out = some q → q.flavor = f) (h : latestGo cmp n f i out db = some p) : p.flavor = f := by
+  induction db generalizing i out with
+  | nil => exact hout p (by simpa [latestGo] using h)
+  | cons st rest ih =>
+    simp only [latestGo] at h
+    split at h
+    · exact ih hout h
+    · split at h
+      · exact ih (by intro q hq; cases hq; rfl) h
+      · split at h
+        · exact ih (by intro q hq; cases hq; rfl) h
+        · exact ih hout h
+
+theorem lookupEntry_flavor {C : Ctx} {r : Req} {e : Str} {post : List Str} {p : Prod} {reason : Str}
+    (hr : r.already = none) (h : lookupEntry C r e post = .ok (.hit p reason)) : p.flavor = r.flavor := by
+  unfold lookupEntry at h
+  simp only [hr] at h
+  split at h
+  · cases h
+  · split at h
+    · cases h
+    · split at h
+      · cases h
+      · split at h
+        · -- version-type entry
+          split at h
+          · cases h
+          · rename_i v _
+            unfold lookupVT at h
+            split at h
+            · cases h
+            · split at h
+              · split at h <;> cases h
+              · split at h
+                · cases h
+                · rename_i q hq
+                  cases h
+                  unfold exprPart at hq
+                  split at hq
+                  · cases hq
+                  · split at hq
+                    · cases hq
+                    · split at hq
+                      · cases hq
+                      · rename_i x _ _ _
+                        simp only [Except.ok.injEq] at hq
+                        exact (selectLatest_some hq).1
+                      · cases hq
+                · split at h
+                  · rename_i q hq
+                    cases h
+                    exact ((lookupVersion_some_iff ..).mp hq).2.1
+                  · split at h <;> cases h
+        · split at h
+          · split at h <;> cases h
+          · split at h
+            · split at h <;> cases h
+            · split at h
+              · split at h
+                · cases h
+                · simp only [Except.ok.injEq] at h
+                  unfold lookupTagEntry at h
+                  split at h
+                  · rename_i q hq
+                    cases h
+                    split at hq
+                    · exact latestGo_flavor (by intro q hq; cases hq) hq
+                    · exact ((lookupTag_some_iff ..).mp hq).1
+                  · cases h
+              · cases h
+
+theorem walk_flavor {C : Ctx} {r : Req} {vro : List Str} {h : Hit}
+    (hr : r.already = none) (hw : walk C r vro = .ok (some h)) : h.prod.flavor = r.flavor := by
+  obtain ⟨pre, post, _, h1, _⟩ := (walk_hit_iff C r vro h).mp hw
+  exact lookupEntry_flavor hr h1
+
+/-! ## the flavor loop -/
+
+theorem find_eq_walk {C : Ctx} {r : Req} (vro : List Str) (hr : r.already = none) : find C r vro = walk C r vro := by
+  unfold find
+  cases hw : walk C r vro with
+  | error e => rfl
+  | ok o =>
+    cases o with
+    | none => rfl
+    | some h => simp [applyAlready, hr]
+
+theorem resolveFlavor_of_find_some {C : Ctx} {r : Req} {keep : Bool} {fuel : Nat} {vro : List Str} {h : Hit}
+    (hf : find C r vro = .ok (some h)) (hacc : acceptableB r h = .ok true) :
+    resolveFlavor C r keep (fuel + 1) vro = .ok (some h) := by
+  have hne : vro.isEmpty = false := by
+    cases vro with
+    | nil => simp [find, walk] at hf
+    | cons _ _ => rfl
+  unfold resolveFlavor
+  simp only [hne, hf, hacc]
+  rfl
+
+theorem resolveFlavor_of_find_none {C : Ctx} {r : Req} {keep : Bool} {fuel : Nat} {vro : List Str}
+    (hr : r.already = none) (hf : find C r vro = .ok none) :
+    resolveFlavor C r keep (fuel + 1) vro = .ok none := by
+  unfold resolveFlavor
+  by_cases hne : vro.isEmpty = true
+  · simp [hne]
+  · simp only [hne, hf, hr]
+    rfl
+
+/-! ## which errors can occur where -/
+
+theorem isExpr_error {v : Str} {err : Err} (h : isExpr v = .error err) : err = .badExpr := by
+  unfold isExpr at h
+  split at h
+  · cases h
+  · split at h
+    · cases h; rfl
+    · cases h
+
+theorem exprPart_error {C : Ctx} {r : Req} {x : Option Str} {err : Err} (h : exprPart C r x = .error err) :
+    err = .badExpr := by
+  unfold exprPart at h
+  split at h
+  · cases h
+  · split at h
+    · cases h
+    · split at h
+      · rename_i e' he; cases h; exact isExpr_error he
+      · cases h
+      · cases h
+
+theorem lookupVT_error {C : Ctx} {r : Req} {e v : Str} {post : List Str} {err : Err}
+    (h : lookupVT C r e post v = .error err) : err = .badExpr := by
+  unfold lookupVT at h
+  split at h
+  · rename_i e' he; cases h; exact isExpr_error he
+  · split at h
+    · split at h <;> cases h
+    · split at h
+      · rename_i e' he; cases h; exact exprPart_error he
+      · cases h
+      · split at h
+        · cases h
+        · split at h <;> cases h
+
+theorem lookupEntry_error {C : Ctx} {r : Req} {e : Str} {post : List Str} {err : Err}
+    (h : lookupEntry C r e post = .error err) : err ≠ .outOfFuel := by
+  unfold lookupEntry at h
+  repeat' (split at h)
+  all_goals first
+    | (cases h; intro hc; cases hc)
+    | (have := lookupVT_error h; subst this; intro hc; cases hc)
+    | (cases h)
+
+theorem walk_error {C : Ctx} {r : Req} {vro : List Str} {err : Err} (h : walk C r vro = .error err) :
+    err ≠ .outOfFuel := by
+  induction vro with
+  | nil => cases h
+  | cons e post ih =>
+    unfold walk at h
+    split at h
+    · rename_i e' he; cases h; exact lookupEntry_error he
+    · exact ih h
+    · cases h
+    · cases h
+
+theorem find_error {C : Ctx} {r : Req} {vro : List Str} {err : Err} (h : find C r vro = .error err) :
+    err ≠ .outOfFuel := by
+  unfold find at h
+  split at h
+  · rename_i e' he; cases h; exact walk_error he
+  · cases h
+  · cases h
+
+theorem acceptableB_error {r : Req} {h : Hit} {err : Err} (ha : acceptableB r h = .error err) : err = .badExpr := by
+  unfold acceptableB at ha
+  split at ha
+  · cases ha
+  · split at ha
+    · split at ha
+      · rename_i e' he; cases ha; exact isExpr_error he
+      · cases ha
+    · cases ha
+
+/-- the recursion of the flavor loop never runs out of the fuel `resolve` gives it: every retry
+continues on a strictly shorter VRO -/
+theorem resolveFlavor_fuel (C : Ctx) (r : Req) (keep : Bool) (fuel : Nat) (vro : List Str)
+    (h : vro.length < fuel) : resolveFlavor C r keep fuel vro ≠ .error .outOfFuel := by
+  induction fuel generalizing vro with
+  | zero => omega
+  | succ fuel ih =>
+    intro hc
+    unfold resolveFlavor at hc
+    split at hc
+    · cases hc
+    · rename_i hne
+      have hpos : 0 < vro.length := by
+        cases vro with
+        | nil => simp at hne
+        | cons _ _ => simp
+      split at hc
+      · rename_i e' he; cases hc; exact find_error he rfl
+      · simp only at hc
+        split at hc
+        · cases hc
+        · split at hc
+          · rename_i e' he; cases hc; have := acceptableB_error he; cases this
+          · cases hc
+          · split at hc
+            · cases hc
+            · split at hc
+              · cases hc
+              · refine ih _ ?_ hc
+                simp only [List.length_drop]
+                omega
+
 end EupsModel.Vro
